@@ -267,7 +267,9 @@ func runC10(c *Ctx) {
 			{"ZA", func() { sm2.ZA(sl("id"), sl("px"), sl("py")) }},
 			{"Verify", func() { sm2.Verify(sl("id"), sl("px"), sl("py"), sl("msg"), sl("r"), sl("s")) }},
 			{"VerifyHashed", func() { sm2.VerifyHashed(sl("px"), sl("py"), sl("e"), sl("r"), sl("s")) }},
-			{"Sign", func() { sm2.Sign(sl("id"), sl("px"), sl("py"), &scriptReader{items: dataScript(be32(k))}, sl("priv"), sl("msg")) }},
+			{"Sign", func() {
+				sm2.Sign(sl("id"), sl("px"), sl("py"), &scriptReader{items: dataScript(be32(k))}, sl("priv"), sl("msg"))
+			}},
 			{"SignHashed", func() { sm2.SignHashed(&scriptReader{items: dataScript(be32(k))}, sl("priv"), sl("e")) }},
 			{"DerivePublic", func() { sm2.DerivePublic(sl("priv")) }},
 			{"CheckOnCurve", func() { sm2.CheckOnCurve(sl("px"), sl("py")) }},
